@@ -567,6 +567,27 @@ func collideCase(r *rand.Rand, res *result) {
 	}
 	uresp := hu.update(oldX, x)
 	t.add("webhook_calls", 2)
+	// a third way into the same collision: an XRD that is already offered (status Offered=True) whose
+	// claim names do not change; the update renames the composite's MUTABLE optional names
+	// (singular / listKind) onto the claim's
+	renameOnly := len(fields) > 0
+	for _, f := range fields {
+		renameOnly = renameOnly && (f == "singular" || f == "listKind")
+	}
+	if renameOnly {
+		old2 := x.DeepCopy()
+		old2.Spec.Names.Singular = "zz" + strings.ToLower(old2.Spec.Names.Kind)
+		old2.Spec.Names.ListKind = old2.Spec.Names.Kind + "ZzList"
+		old2.Status.SetConditions(v1.WatchingComposite(), v1.WatchingClaim())
+		if hv, e := newHook(r.Uint64()); e == nil {
+			r2 := hv.update(old2, x)
+			t.add("webhook_calls", 1)
+			t.add("collide_by_composite_rename_cases", 1)
+			if r2.Allowed {
+				res.bad("claim-collision-"+class+"-admitted-on-composite-rename", fmt.Sprintf("the XRD webhook admitted an update of an offered XRD that renames the composite's %v onto the unchanged claim names", fields), wit)
+			}
+		}
+	}
 	res.sample["xcrd_error"] = fmt.Sprint(derr)
 	res.sample["webhook_create"] = fmt.Sprintf("allowed=%v %s", cresp.Allowed, denial(cresp))
 	res.sample["webhook_update"] = fmt.Sprintf("allowed=%v %s", uresp.Allowed, denial(uresp))
